@@ -240,6 +240,8 @@ def subs_tags(a, vals):
             tags.add("bool-index")
         if isinstance(v, E) and v.tag == "slice" and a.tag == "cat":
             tags.add("cat-slice-value")
+        if a.tag == "cat" and k != list(a.inputs)[-1] and list(a.inputs)[-1] in names:
+            tags.add("subs-value-mentions-cat-name")  # free name of the value = the Cat's own index name
     renamed_keys = {k for k, _, _ in renames}
     for k, target, kind in renames:
         if target == k and kind == "variable":
